@@ -180,9 +180,29 @@ impl UnitRunner for C06 {
       Ok(Err(e)) => {
         out.count("run_error");
         let detail = e.kind_message();
-        if p.must_run { out.nontrivial += 1; out.fail(cls_fail("run", &e.kind_name()), case, format!("run_program -> Err({}: {})", e.kind_name(), detail.chars().take(120).collect::<String>())); }
+        if p.must_run { out.nontrivial += 1; out.fail(cls_fail("run", &e.kind_name()), case.clone(), format!("run_program -> Err({}: {})", e.kind_name(), detail.chars().take(120).collect::<String>())); }
       }
-      Err(pn) => { out.nontrivial += 1; out.fail(format!("C06|panic|run|{}", fam_key(&p.family)), case, panic_msg(pn)); }
+      Err(pn) => { out.nontrivial += 1; out.fail(format!("C06|panic|run|{}", fam_key(&p.family)), case.clone(), panic_msg(pn)); }
+    }
+    // The same file in interpreters whose function registry already holds the program's functions (a fresh one does not, which is why
+    // most typed programs cannot run there): the compiling interpreter itself - what the repository's own tests do - and a third
+    // interpreter that has interpreted the same source. Here the decoded constants and the rebuilt functions really execute: the result
+    // must be the interpreter's result (or an error), never another value, never a panic.
+    let mut i3 = Interpreter::new(2);
+    let warmed = matches!(catch_unwind(AssertUnwindSafe(|| i3.interpret(&tree))), Ok(Ok(_)));
+    for (route, intr) in [("compiling-interpreter", Some(&mut i1)), ("warmed-interpreter", if warmed { Some(&mut i3) } else { None })] {
+      let Some(intr) = intr else { continue; };
+      out.evaluations += 1;
+      match catch_unwind(AssertUnwindSafe(|| intr.run_program(&prog))) {
+        Ok(Ok(v)) => {
+          out.nontrivial += 1;
+          let c = canon(&v);
+          out.set(&format!("families_reproduced_in_{}", route), &fam_key(&p.family));
+          if c != c1 { out.fail(format!("C06|different-result|run-in-{}|{}", route, fam_key(&p.family)), case.clone(), format!("interpreter: {} ; bytecode in the {}: {}", c1.short(), route, c.short())); }
+        }
+        Ok(Err(e)) => { out.count(&format!("run_error_in_{}", route)); out.set(&format!("run_errors_in_{}", route), &format!("{}:{}", fam_key(&p.family), e.kind_name())); }
+        Err(pn) => { out.nontrivial += 1; out.fail(format!("C06|panic|run-in-{}|{}", route, fam_key(&p.family)), case.clone(), panic_msg(pn)); }
+      }
     }
   }
 }
